@@ -135,6 +135,20 @@ pub fn cases(tier: Tier) -> Vec<Case> {
             pre.push(Case { cfg: cfg.clone(), ops });
         }
     }
+    // two full segments behind the history (the middle segment was created by one rollover and sealed by the next)
+    let two_rollovers: Vec<Op> = (0..4).map(|_| Op::Append(TxS::single(0, 0, Size::Block))).collect();
+    let cfgs2: Vec<DbCfg> = if tier.is_thorough() {
+        vec![DbCfg::simple(MIN_SEG, true, SyncMode::EveryWrite), DbCfg::simple(MIN_SEG, false, deferred)]
+    } else {
+        vec![DbCfg::simple(MIN_SEG, true, SyncMode::EveryWrite)]
+    };
+    for cfg in cfgs2 {
+        for suffix in sequences(&alphabet(false), if tier.is_thorough() { 3 } else { 2 }) {
+            let mut ops = two_rollovers.clone();
+            ops.extend(suffix);
+            pre.push(Case { cfg: cfg.clone(), ops });
+        }
+    }
     pre.extend(v);
     pre
 }
